@@ -39,6 +39,7 @@ type LoopAnn struct {
 	Body     *ssa.Function // checked at every back edge (what a completed iteration did)
 	BodyArgs []string
 	Heads    []*ssa.Function // pure functions of BodyArgs evaluated at the loop head; results are passed to Body after its named arguments
+	Exit     *ssa.Function   // checked where the function returns from inside the loop (same arguments and head values as Body)
 }
 
 type Sweep struct {
@@ -684,8 +685,10 @@ func (db *SpecDB) readFile(prog *ssa.Program, p *packages.Package, spkg *ssa.Pac
 				for _, n := range dir[1:] {
 					db.getters[expandName(n)] = true
 				}
-			case "loopbody":
-				// loopbody <target> <ordinal> check=<func> args=a,b
+			case "loopbody", "loopexit":
+				// loopbody <target> <ordinal> check=<func> args=a,b [head=f,g]
+				// loopexit <target> <ordinal> check=<func> [args=… head=…]: the same, for
+				// the paths that return from inside the loop
 				if len(dir) >= 4 {
 					tn := expandName(dir[1])
 					ord, _ := strconv.Atoi(dir[2])
@@ -700,7 +703,11 @@ func (db *SpecDB) readFile(prog *ssa.Program, p *packages.Package, spkg *ssa.Pac
 						case strings.HasPrefix(a, "check="):
 							n := strings.TrimPrefix(a, "check=")
 							if m := spkg.Func(n); m != nil {
-								la.Body = m
+								if dir[0] == "loopexit" {
+									la.Exit = m
+								} else {
+									la.Body = m
+								}
 							} else {
 								db.errf("loopbody: function %q not found", n)
 							}
